@@ -995,7 +995,7 @@ func canonValue(v ssa.Value) ssa.Value {
 			}
 			switch cell := x.X.(type) {
 			case *ssa.Alloc:
-				if sv := singleStore(cell); sv != nil {
+				if sv := singleStore(cell); sv != nil && !writtenByLiterals(cell) {
 					v = sv
 					continue
 				}
@@ -1018,7 +1018,7 @@ func canonValue(v ssa.Value) ssa.Value {
 				if !ok {
 					return v
 				}
-				if sv := singleStore(a); sv != nil {
+				if sv := singleStore(a); sv != nil && !writtenByLiterals(a) {
 					v = sv
 					continue
 				}
